@@ -178,12 +178,14 @@ def peekIntoStream(substrate, size=-1):
         The return type depends on Python major version
     """
     if hasattr(substrate, "peek"):
-        received = substrate.peek(size)
-        if received is None:
-            yield
+        while True:
+            received = substrate.peek(size)
+            if received is None or len(received) < size:
+                # not enough data yet: let the caller retry, then look again
+                yield error.SubstrateUnderrunError()
+                continue
 
-        while len(received) < size:
-            yield
+            break
 
         yield received
 
